@@ -28,6 +28,8 @@ def main():
     wt = "/tmp/seedconfirm-" + name
     tgt = "/tmp/seedconfirm-target"
     report = {"property": pid, "name": name, "meta_from_author": meta}
+    if os.environ.get("SEED_SKIP_CONFIRM") == "1" and isinstance(meta.get("confirmation"), dict):
+        report.update(meta["confirmation"])        # re-evaluation of a stored seed: the confirmation stands
     if os.environ.get("SEED_SKIP_CONFIRM") != "1":
         sh("git -C /repo worktree remove --force %s" % wt)
         rc, out = sh("git -C /repo worktree add -q --detach %s HEAD" % wt)
